@@ -21,9 +21,52 @@ class C15(Check):
         open(os.path.join(d, "race.log"), "w").write(p.stdout + "\n--- stderr ---\n" + p.stderr)
         return p, os.path.join(d, "race.log")
 
+    def conc_run(self):
+        """Quick-tier concurrent family: update stream || UpdateMetadata loop || UpdateSize
+        loop on one target, free running, in a child process.  K_P: the process neither
+        crashes nor hangs, and at quiescence targetLeaves = added - deleted = stored."""
+        binary, blog = vlib.go_build(self.harness)
+        if binary is None:
+            return None
+        d = self.rundir("conc")
+        try:
+            p = subprocess.run([binary, "-out", d], cwd=d, env=dict(os.environ, VERIF_C15_CONC="1"),
+                               stdout=subprocess.PIPE, stderr=subprocess.PIPE, text=True, errors="replace", timeout=120)
+            out, err, rc = p.stdout, p.stderr, p.returncode
+        except subprocess.TimeoutExpired as e:
+            out, err, rc = (e.stdout or ""), (e.stderr or ""), "timeout"
+            out = out if isinstance(out, str) else out.decode(errors="replace")
+            err = err if isinstance(err, str) else err.decode(errors="replace")
+        open(os.path.join(d, "conc.log"), "w").write(out + "\n--- stderr ---\n" + err)
+        bad = []
+        if rc != 0 or "conc-done" not in out:
+            first = [l for l in err.splitlines() if l.startswith("fatal error") or l.startswith("panic")]
+            bad.append("child process ended with %s: %s" % (rc, (first or err.splitlines()[:1] or ["no output"])[0]))
+        reps = 0
+        for line in out.splitlines():
+            m = re.match(r"quiescent rep=(\d+) leaves=(-?\d+) added=(-?\d+) deleted=(-?\d+) stored=(-?\d+)", line)
+            if m:
+                reps += 1
+                lv, ad, dl, st = (int(m.group(i)) for i in (2, 3, 4, 5))
+                if lv != ad - dl or lv != st:
+                    bad.append("counter equations broken at quiescence: " + line)
+        return dict(bad=bad, reps=reps, log=os.path.join(d, "conc.log"), stderr=err[:3000])
+
     def main(self, tier, seed, replay=None):
         rc = super().main(tier, seed, replay)
-        if tier != "thorough" or replay:
+        if replay:
+            return rc
+        cr = self.conc_run()
+        if cr is not None:
+            vlib.log("C15 concurrent family: %d repetitions of update || UpdateMetadata || UpdateSize on one target, %s"
+                     % (cr["reps"], "ok" if not cr["bad"] else "; ".join(cr["bad"])[:300]))
+            if cr["bad"]:
+                rp = self.replay_path(dict(property="C15", kind="concurrent", tag=7, failures=cr["bad"],
+                                           stderr=cr["stderr"], log=cr["log"],
+                                           replay_cmd="VERIF_C15_CONC=1 <harness binary> -out <dir>"))
+                vlib.log("VIOLATION property=C15 replay=%s" % rp)
+                return 1
+        if tier != "thorough":
             return rc
         p, logp = self.race_run()
         if p is None:
